@@ -32,7 +32,11 @@ func (s CKKSSet) maxSlots() int {
 // genCKKSSet draws a CKKS set. tolBits: the worst-case slot error must stay below 2^-tolBits.
 func genCKKSSet(t *rapid.T, req modReq, tolBits int) CKKSSet {
 	var s CKKSSet
-	s.P.LogN = rapid.IntRange(4, maxLogN()).Draw(t, "logN")
+	big := 9 // sums over up to N terms
+	if req.terms == 1 {
+		big = 10
+	}
+	s.P.LogN = genLogN(t, big)
 	s.P.CI = rapid.IntRange(0, 2).Draw(t, "ringType") == 0
 	s.P.NTT = true
 	n := s.P.N()
@@ -108,6 +112,21 @@ func (c *ckksCtx) encrypt(vals []complex128, level, logSlots int) (*rlwe.Ciphert
 	pt := ckks.NewPlaintext(c.params, level)
 	pt.LogDimensions = ring.Dimensions{Rows: 0, Cols: logSlots}
 	if err := c.ecd.Encode(vals, pt); err != nil {
+		return nil, h.Failf("C11:ckks:encode", "Encode: %v", err)
+	}
+	ct, err := c.enc.EncryptNew(pt)
+	if err != nil {
+		return nil, h.Failf("C11:ckks:encrypt", "EncryptNew: %v", err)
+	}
+	return ct, nil
+}
+
+// usedReceiver returns a ciphertext with an earlier life: a genuine full-packing encryption of unrelated values at
+// the given level under three times the default scale.
+func (c *ckksCtx) usedReceiver(level int, seed uint64) (*rlwe.Ciphertext, error) {
+	pt := ckks.NewPlaintext(c.params, level)
+	pt.Scale = pt.Scale.Mul(rlwe.NewScale(3))
+	if err := c.ecd.Encode(distinctC(seed^0x5bd1e995, c.params.MaxSlots(), c.set.P.CI), pt); err != nil {
 		return nil, h.Failf("C11:ckks:encode", "Encode: %v", err)
 	}
 	ct, err := c.enc.EncryptNew(pt)
@@ -285,6 +304,13 @@ func runCKKSRot(c CKKSRotCase, rec *h.Rec) error {
 	}
 	keys := keysFor(ctx.kgen, ctx.sk, galEls, c.Set.Bpw2, c.Set.Keys)
 	eval := ckks.NewEvaluator(p, keys)
+	snap := snapshot(ctx.sk, keys)
+	// one receiver for all out-of-place calls of the case: it starts as a genuine full-packing ciphertext at the maximum
+	// level under another scale and then carries the previous result
+	recv, err := ctx.usedReceiver(p.MaxLevel(), c.Seed)
+	if err != nil {
+		return err
+	}
 
 	check := func(op string, got *rlwe.Ciphertext, want []complex128, detail string) error {
 		if got.LogDimensions != ct.LogDimensions {
@@ -309,7 +335,7 @@ func runCKKSRot(c CKKSRotCase, rec *h.Rec) error {
 		for _, k := range c.Ks {
 			var out *rlwe.Ciphertext
 			if c.Mode == "rot" {
-				out = ckks.NewCiphertext(p, 1, c.Level)
+				out = recv
 				err = eval.Rotate(ct, k, out)
 			} else {
 				out, err = eval.RotateNew(ct, k)
@@ -336,7 +362,7 @@ func runCKKSRot(c CKKSRotCase, rec *h.Rec) error {
 	case "conj", "conjNew":
 		var out *rlwe.Ciphertext
 		if c.Mode == "conj" {
-			out = ckks.NewCiphertext(p, 1, c.Level)
+			out = recv
 			err = eval.Conjugate(ct, out)
 		} else {
 			out, err = eval.ConjugateNew(ct)
@@ -355,7 +381,7 @@ func runCKKSRot(c CKKSRotCase, rec *h.Rec) error {
 		}
 	case "conjRot":
 		k := c.Ks[0]
-		a := ckks.NewCiphertext(p, 1, c.Level)
+		a := recv
 		if err = eval.Conjugate(ct, a); err != nil {
 			return opErr("ckks", "Conjugate", err, keys, "")
 		}
@@ -429,6 +455,9 @@ func runCKKSRot(c CKKSRotCase, rec *h.Rec) error {
 	default:
 		return h.Failf("C11:harness:mode", "unknown mode %q", c.Mode)
 	}
+	if ch := sameSnapshot(snap, snapshot(ctx.sk, keys)); ch != "" {
+		return h.Failf("C11:ckks:"+c.Mode+":key-material-modified", "%s changed during the operations", ch)
+	}
 	if c.Mode != "chain" {
 		if err := check("input-intact", ct, vals, "input after "+c.Mode); err != nil {
 			return err
@@ -481,18 +510,22 @@ type CKKSSumCase struct {
 
 func (c CKKSSumCase) RandSeed() uint64 { return c.Seed }
 
-var ckksSumOps = []string{"InnerSum", "InnerSum", "RotateAndAdd", "RotateAndAdd", "Replicate", "PartialTracesSum", "Average", "InnerFunction"}
+var ckksSumOps = []string{"InnerSum", "InnerSum", "RotateAndAdd", "RotateAndAdd", "Replicate", "PartialTracesSum", "Average", "InnerFunction", "Trace"}
 
 func genCKKSSum(t *rapid.T) CKKSSumCase {
 	var c CKKSSumCase
 	op := ckksSumOps[rapid.IntRange(0, len(ckksSumOps)-1).Draw(t, "op")]
-	c.Set = genCKKSSet(t, modReq{needP: op != "InnerFunction", termsN: true}, 8)
+	c.Set = genCKKSSet(t, modReq{needP: hoistedSum(op), termsN: true}, 8)
 	c.Level = rapid.IntRange(0, len(c.Set.P.Q)-1).Draw(t, "level")
-	c.Set.Keys = genSetKeys(t, &c.Set.P.RLWESpec, c.Level, op != "InnerFunction")
+	c.Set.Keys = genSetKeys(t, &c.Set.P.RLWESpec, c.Level, hoistedSum(op))
 	c.LogSlots = genLogSlots(t, bitsLen(c.Set.maxSlots()), c.Set.P.CI)
 	c.Seed = rapid.Uint64().Draw(t, "seed")
 	slots := 1 << c.LogSlots
 	c.Args = genSumArgs(t, op, slots, slots)
+	if op == "Trace" {
+		c.Args.Batch, c.Args.N = 1, c.Set.P.N()
+		c.Args.LogTr = rapid.IntRange(0, c.Set.P.LogN-1).Draw(t, "logTr")
+	}
 	if c.Args.Op == "Average" {
 		// Average takes log2(batch); n = slots / batch
 		lb := rapid.IntRange(0, c.LogSlots).Draw(t, "logBatchAvg")
@@ -559,33 +592,48 @@ func runCKKSSum(c CKKSSumCase, rec *h.Rec) error {
 		galEls = p.GaloisElementsForReplicate(a.Batch, a.N)
 	case "PartialTracesSum", "InnerFunction":
 		galEls = rlwe.GaloisElementsForInnerSum(p, a.Batch, a.N)
+	case "Trace":
+		galEls = p.GaloisElementsForTrace(a.LogTr)
 	}
 	keys := keysFor(ctx.kgen, ctx.sk, galEls, c.Set.Bpw2, c.Set.Keys)
 	eval := ckks.NewEvaluator(p, keys)
 
+	snap := snapshot(ctx.sk, keys)
 	out := ct
 	if !a.InPlace {
 		lvl := c.Level
 		if a.OutMax {
 			lvl = p.MaxLevel()
 		}
-		out = ckks.NewCiphertext(p, 1, lvl)
+		// the receiver had an earlier life (other data, other scale and packing, possibly a higher level)
+		if out, err = ctx.usedReceiver(lvl, c.Seed); err != nil {
+			return err
+		}
 	}
 	detail := fmt.Sprintf("%s(batch=%d, n=%d) N=%d %s slots=%d/%d level=%d inPlace=%v", a.Op, a.Batch, a.N, p.N(), ringName(c.Set.P.CI), slots, maxSlots, c.Level, a.InPlace)
-	switch a.Op {
-	case "InnerSum":
-		err = eval.InnerSum(ct, a.Batch, a.N, out)
-	case "RotateAndAdd":
-		err = eval.RotateAndAdd(ct, a.Batch, a.N, out)
-	case "Replicate":
-		err = eval.Replicate(ct, a.Batch, a.N, out)
-	case "PartialTracesSum":
-		err = eval.PartialTracesSum(ct, a.Batch, a.N, out)
-	case "Average":
-		err = eval.Average(ct, bitsLen(a.Batch), out)
-	case "InnerFunction":
-		err = eval.InnerFunction(ct, a.Batch, a.N, func(x, y, z *rlwe.Ciphertext) error { return eval.Add(x, y, z) }, out)
+	if a.Op == "Trace" {
+		detail = fmt.Sprintf("Trace(logN=%d) N=%d %s slots=%d/%d level=%d inPlace=%v", a.LogTr, p.N(), ringName(c.Set.P.CI), slots, maxSlots, c.Level, a.InPlace)
 	}
+	apply := func() error {
+		switch a.Op {
+		case "InnerSum":
+			return eval.InnerSum(ct, a.Batch, a.N, out)
+		case "RotateAndAdd":
+			return eval.RotateAndAdd(ct, a.Batch, a.N, out)
+		case "Replicate":
+			return eval.Replicate(ct, a.Batch, a.N, out)
+		case "PartialTracesSum":
+			return eval.PartialTracesSum(ct, a.Batch, a.N, out)
+		case "Average":
+			return eval.Average(ct, bitsLen(a.Batch), out)
+		case "InnerFunction":
+			return eval.InnerFunction(ct, a.Batch, a.N, func(x, y, z *rlwe.Ciphertext) error { return eval.Add(x, y, z) }, out)
+		case "Trace":
+			return eval.Trace(ct, a.LogTr, out)
+		}
+		return nil
+	}
+	err = apply()
 	if err != nil {
 		return opErr("ckks", a.Op, err, keys, detail)
 	}
@@ -652,6 +700,25 @@ func runCKKSSum(c CKKSSumCase, rec *h.Rec) error {
 				}
 			}
 		}
+	case "Trace":
+		// The trace projects the plaintext polynomial on the sub-ring fixed by the subgroup generated by 5^(2^logN)
+		// (and by the conjugation for logN = 0 in the standard ring): every slot of the maximum-size slot vector (the
+		// packed vector repeated) becomes the average over its orbit under the rotations by multiples of 2^logN.
+		full := make([]complex128, maxSlots)
+		for i := range full {
+			full[i] = vals[i%slots]
+		}
+		cnt := maxSlots >> a.LogTr
+		avg := sumRotC(full, 1<<a.LogTr, cnt)
+		want = make([]complex128, slots)
+		for j := range want {
+			w := avg[j] / complex(float64(cnt), 0)
+			if a.LogTr == 0 && !c.Set.P.CI {
+				w = complex(real(w), 0) // (x + conj(x))/2
+			}
+			want[j] = w
+			compare[j] = true
+		}
 	case "Average":
 		want = sumRotC(vals, a.Batch, a.N)
 		for j := range want {
@@ -676,6 +743,22 @@ func runCKKSSum(c CKKSSumCase, rec *h.Rec) error {
 			return h.Failf("C11:ckks:"+a.Op+":input-modified", "%s: input slot %d changed from %v to %v (%.3g)", detail, i, vals[i], back[i], d)
 		}
 	}
+	if !a.InPlace {
+		// second use of the same evaluator into the same receiver (which now holds the first result)
+		if err = apply(); err != nil {
+			return opErr("ckks", a.Op, err, keys, detail+" (second use)")
+		}
+		again, err := ctx.decrypt(out, slots)
+		if err != nil {
+			return err
+		}
+		if i, d := firstDiffC(again, want, tol, compare); i >= 0 {
+			return h.Failf("C11:ckks:"+a.Op+":second-use:value", "%s: second evaluation into the same receiver: slot %d = %v, expected %v (|diff|=%.3g > tol %.3g)", detail, i, again[i], want[i], d, tol)
+		}
+	}
+	if ch := sameSnapshot(snap, snapshot(ctx.sk, keys)); ch != "" {
+		return h.Failf("C11:ckks:"+a.Op+":key-material-modified", "%s: %s changed during the operation", detail, ch)
+	}
 
 	rec.Classf("op=%s", a.Op)
 	rec.Classf("ring=%s", ringName(c.Set.P.CI))
@@ -688,8 +771,11 @@ func runCKKSSum(c CKKSSumCase, rec *h.Rec) error {
 	if a.InPlace {
 		rec.Class("in-place")
 	}
-	if a.nonTrivial(slots, slots) || slots < maxSlots {
-		rec.NonTrivial(fmt.Sprintf("ckkssum|%s|%s|logN=%d|slots=%d|nP=%d|lvl=%d/%d|batch=%d|n=%d|inplace=%v", a.Op, ringName(c.Set.P.CI), c.Set.P.LogN, slots, len(c.Set.P.P), c.Level, len(c.Set.P.Q)-1, a.Batch, a.N, a.InPlace))
+	if a.Op == "Trace" {
+		rec.Classf("logTr=%d/%d", a.LogTr, c.Set.P.LogN)
+	}
+	if a.nonTrivial(slots, slots) || slots < maxSlots || a.Op == "Trace" {
+		rec.NonTrivial(fmt.Sprintf("logTr=%d|ckkssum|%s|%s|logN=%d|slots=%d|nP=%d|lvl=%d/%d|batch=%d|n=%d|inplace=%v", a.LogTr, a.Op, ringName(c.Set.P.CI), c.Set.P.LogN, slots, len(c.Set.P.P), c.Level, len(c.Set.P.Q)-1, a.Batch, a.N, a.InPlace))
 	}
 	return nil
 }
